@@ -22,7 +22,7 @@ static double wrap_lng(double x) {
 void vf_poly_free(vf_poly *p) {
     free(p->outer_u);
     free(p->outer_w);
-    for (int h = 0; h < 3; h++) {
+    for (int h = 0; h < VF_POLY_MAXH; h++) {
         free(p->hole_u[h]);
         free(p->hole_w[h]);
     }
@@ -244,6 +244,23 @@ static int poly_axis(vf_rng *r, const vf_poly_opts *o, vf_poly *p) {
         memcpy(p->outer_u, v, sizeof v);
         xm = x2, ym = y2;
     }
+    if (o->nholes > 3) {
+        /* many thin east-west slits stacked in latitude inside the block [x0,xm] x [y0,ym] (disjoint, strictly inside): each
+         * hole loop is traced separately by the legacy fill, whose scratch arrays are sized for the outer loop's estimate */
+        int K = o->nholes > 28 ? 28 : o->nholes;
+        double bh = (ym - y0) / (K + 1), mx = (xm - x0) * 0.06;
+        p->nholes = K;
+        for (int h = 0; h < K; h++) {
+            double yc = y0 + bh * (h + 1), hh = bh * (0.04 + 0.2 * vf_unit(r));
+            LatLng v[4] = {{yc - hh, x0 + mx}, {yc - hh, xm - mx}, {yc + hh, xm - mx}, {yc + hh, x0 + mx}};
+            p->hn[h] = 4;
+            p->hole_u[h] = malloc(4 * sizeof(LatLng));
+            p->hole_w[h] = malloc(4 * sizeof(LatLng));
+            for (int i = 0; i < 4; i++) p->hole_u[h][i] = v[o->holes_cw ? 3 - i : i];
+        }
+        poly_finish(p);
+        return 1;
+    }
     /* holes live in the block [x0,xm] x [y0,ym], one per quadrant of that block */
     p->nholes = o->nholes > 3 ? 3 : o->nholes;
     for (int h = 0; h < p->nholes; h++) {
@@ -325,6 +342,7 @@ int vf_poly_case(uint64_t seed, vf_poly *P, int *res_out, char *desc, size_t dle
     /* seeds ending in binary 110 get one of the two special shapes (the listed witnesses of repaired defects end otherwise) */
     const char *shape = "";
     if ((seed & 7) == 6 && !(seed >> 3 & 1)) {
+        if ((seed >> 4 & 3) == 1) o.nholes = 4 + (int)vf_below(&r, 25); /* a quarter of them: 4..28 slit holes */
         if (!poly_axis(&r, &o, P)) return 0;
         shape = "axis-aligned, ";
     } else {
